@@ -45,7 +45,7 @@ def plan(tier, seed):
 def conclude(agg):
     c = agg['counters']
     r = [f'monitor counter {k} is zero' for k in ('heap_events', 'heap/splits', 'heap/merges_both', 'heap/tail_trims_cascade', 'heap/exact_fits',
-                                                  'map/sharing_pairs', 'map/alias_lines', 'san/reads', 'san/capture_reads', 'exhaustive_histories',
+                                                  'map/sharing_pairs', 'map/alias_lines', 'san/reads', 'san/capture_reads', 'lsan/operand_checks', 'lsan/capture_rows', 'exhaustive_histories',
                                                   'simops_heap_events', 'reached/heap-split', 'reached/heap-merge-next', 'reached/heap-merge-prev',
                                                   'reached/heap-tail-cascade', 'corpus_circuits')
          if c.get(k, 0) == 0]
@@ -183,6 +183,21 @@ def map_case(ctx, case, circuit=None, b=None):
         for k, v in san.stats.items():
             if k != 'max_level_width':
                 ctx.count('san/' + k, v)
+    if kind == 'logic' and not bad and 'net' in case:
+        from .. import shadow_logic
+        rep3 = []
+        lsan = shadow_logic.LogicSanitizer(sim, circuit, lambda k, m: rep3.append((k, m)), case['strip_forks'])
+        with ctx.guard('simulation-raises', case):
+            nrng = np.random.default_rng(case['stim_seed'])
+            for _ in range(2 if case.get('twice') else 1):
+                sim.s[0] = nrng.integers(0, 256, size=sim.s[0].shape, dtype=np.uint8)
+                sim.s_to_c()
+                sim.c_prop()
+                sim.c_to_s()
+        for k, m in rep3[:2]:
+            ctx.violation('logic-sanitizer-' + k, f'{m}; LogicSim m={case.get("m")} reuse={case["c_reuse"]} strip={case["strip_forks"]}; {G.net_text(case["net"])[:300]}', case)
+        for k, v in lsan.stats.items():
+            ctx.count('lsan/' + k, v)
     if 'net' in case:
         ctx.case(case, nontrivial, key=WC.key_of(case) + [kind])
         ctx.sample({'netlist': G.net_text(case['net'])[:300], 'simkind': kind, 'c_reuse': case['c_reuse'], 'strip_forks': case['strip_forks'], 'caps': case['caps'],
